@@ -1,3 +1,4 @@
+import re
 """C05 - a configuration survives every save / replay path (structural clauses)."""
 import cover, srcattrs, t2, lib
 from mir import callee_of
@@ -122,6 +123,26 @@ def run(F, chk):
             has_default = any("serde(" in a and "default" in a for a in at) or cont_default
             is_opt = f["ty"].startswith("core::option::Option<")
             key = "%s.%s" % (path, f["name"])
+            # a hand-written skip predicate on a struct value decides `this is the default, omit it`: it can only be
+            # right if it looks at every field of the value (otherwise values differing in the ignored field are
+            # written as nothing and read back as the default)
+            m = re.search(r'skip_serializing_if\s*=\s*"([^"]+)"', sk[0])
+            pred = m.group(1) if m else ""
+            if pred and "::" not in pred:
+                cands = [q for q in F.paths() if q.endswith("::" + pred) and "{closure" not in q and q.rsplit("::", 1)[0] == path.rsplit("::", 1)[0]]
+                if cands:
+                    pb = F.body(cands[0])
+                    rc.fn(cands[0])
+                    pty = pb.locals[1].lstrip("&") if pb.argc >= 1 else ""
+                    if pty in F.adts and F.adts[pty]["kind"] == "struct":
+                        want = {x["name"] for x in F.fields(pty)}
+                        got, _ = cover.family_field_reads(F, cands[0], pty, depth=1)
+                        whole = any((t.get("fn") or "").endswith(("PartialEq::eq", "PartialEq::ne")) and (t.get("recv") or "").lstrip("&") == pty for _, t in pb.calls())
+                        k2 = "%s|predicate %s reads every field of %s" % (key, pred, pty.rsplit("::", 1)[-1])
+                        if whole or want <= set(got):
+                            rc.ok(k2, pb.where(), "reads %s" % (sorted(got) if not whole else "the whole value"))
+                        else:
+                            rc.violation(k2, pb.where(), "the skip predicate %s ignores field(s) %s of %s: a value that differs from the default only there is omitted when saved and comes back as the default" % (pred, sorted(want - set(got)), pty.rsplit("::", 1)[-1]))
             if has_default or is_opt:
                 rc.ok(key, "%s:%d" % (f["file"], f["line"]), "skip_serializing_if paired with %s" % ("default" if has_default else "Option"), nontrivial=False)
             else:
